@@ -324,7 +324,10 @@ func c15RandOp(r *rand.Rand, all []string, malformed bool) (c15Op, string) {
 	case x < 56:
 		return c15Op{Op: "disable", Names: c15RandNames(r, all, malformed)}, "op-disable"
 	case x < 90:
-		pol := []string{"deps", "deps", "dependents", "ignore"}[r.Intn(4)]
+		pol := []string{"deps", "none", "dependents", "ignore"}[r.Intn(4)] // none = WithSelectedServices without option
+		if r.Intn(8) == 0 {
+			pol = []string{"ignore+deps", "deps+dependents", "dependents+ignore", "ignore+dependents+deps"}[r.Intn(4)]
+		}
 		return c15Op{Op: "select", Names: c15RandNames(r, all, malformed), Pol: pol}, "op-select-" + pol
 	}
 	return c15Op{Op: "prune"}, "op-prune"
@@ -433,10 +436,14 @@ func runC15(ctx *core.Ctx) {
 		ctx.Count("malformed")
 		add(c15Args{Init: st, Ops: ops})
 	}
+	// 3b. ForEachService itself (callback sequence, option lists, fn errors, aliasing) and the accessors of the partition
+	c15GenEach(ctx)
+
 	// 4. the environment tail of WithServicesEnabled on services with env files (real files; tie to C16's function)
 	c15GenEnvTail(ctx, ctx.Rng, ctx.Pick(3000, 40000))
 
 	ctx.Wait()
 	ctx.Note("c15hist: %d steps compared exactly with the model and decided against the spec; %d select steps look like the pre-fix order-dependent loop (must be 0); %d steps returned 'no such service'; spec skipped on %d steps whose receiver is not a partition or has a Name that differs from its key (malformed stream)",
 		c15Steps.Load(), c15ViaOrder.Load(), c15ErrSteps.Load(), c15SpecSkipped.Load())
+	ctx.Note("c15each: ForEachSpec skipped on %d cases whose project is not a partition or has a Name that differs from its key", c15EachSpecSkipped.Load())
 }
